@@ -369,3 +369,89 @@ def build4(m):
                                ],
                     decreases='len(lines.lines) - 1 - lines._index'),
         }, prop=P + ['C13']), classmethod_=True)
+
+
+def build5(m):
+    """List.read, List.same_marker_type (C01)."""
+    def method(cls, name, c, static=False, classmethod_=False):
+        m.methods[(cls, name)] = c.key
+        c.is_static = static
+        c.is_classmethod = classmethod_
+        m.add(c)
+        return c
+    MARKER = TTuple([INT, INT, STR, STR])
+    ITEM = TTuple([PB, INT, INT, STR, INT])
+    NESTED = ['N:FileWrapper._index', 'N:FileWrapper.lines', 'N:FileWrapper.start_line',
+              'N:FileWrapper._anchor', 'N:ParseBuffer.items', 'N:ParseBuffer.loose']
+    method('List', 'same_marker_type', Contract(
+        MOD + ':List.same_marker_type', [('leader', STR), ('other', STR)], returns=BOOL, pure=True,
+        requires=['len(leader) >= 1', 'len(other) >= 1'], prop=['C01']), static=True)
+    method('List', 'read', Contract(
+        MOD + ':List.read', [('cls', cls_t('List')), ('lines', FW)], returns=TOpt(TList(ITEM)),
+        requires=READER_REQ + ['is_marker(lines.lines[lines._index + 1])'],
+        ensures=READER_ENS_SOME + ['len(some(result)) >= 1',
+                                   # C13: the list starts on the line of its first item
+                                   ('some(result)[0][4] == lines.start_line + old(lines._index) + 1', 'C13')],
+        ensures_exc=['CURSOR_OK(lines)'],
+        modifies=['lines._index', 'G:SCRATCH', 'G:FOOTNOTES', 'F:ParseBuffer.loose'] + NESTED,
+        allow_exc=['CustomTokenError'],
+        body_types={'leader': TOpt(STR), 'next_marker': TOpt(MARKER), 'matches': TList(ITEM)},
+        loops={0: Loop(invariant=[
+            'CURSOR_OK(lines)', 'lines._index >= old(lines._index)',
+            '(len(matches) == 0) == (lines._index == old(lines._index))',
+            '(len(matches) == 0) == is_none(leader)',
+            'implies(not is_none(leader), len(some(leader)) >= 1)',
+            'implies(len(matches) == 0, is_none(next_marker))',
+            'implies(len(matches) > 0, not is_none(next_marker) and lines._index + 1 < len(lines.lines) '
+            'and is_marker(lines.lines[lines._index + 1]) and len(some(next_marker)[2]) >= 1)',
+            'implies(len(matches) > 0, matches[0][4] == lines.start_line + old(lines._index) + 1)',
+        ], decreases='len(lines.lines) - 1 - lines._index')},
+        prop=P + ['C13']), classmethod_=True)
+
+
+def build6(m):
+    """Footnote.read (C01, C13, C07)."""
+    def method(cls, name, c, static=False, classmethod_=False):
+        m.methods[(cls, name)] = c.key
+        c.is_static = static
+        c.is_classmethod = classmethod_
+        m.add(c)
+        return c
+    REF5 = TTuple([STR, STR, STR, STR, TOpt(STR)])
+    method('Footnote', 'match_reference', Contract(
+        MOD + ':Footnote.match_reference', [('cls', cls_t('Footnote')), ('string', STR), ('offset', INT)],
+        returns=TOpt(TTuple([INT, REF5])), trusted=True, pure=True,
+        requires=['0 <= offset', 'offset < len(string)'],
+        ensures=["implies(not is_none(result), offset < some(result)[0] and some(result)[0] <= len(string) "
+                 "and string[some(result)[0] - 1] == '\\n')"],
+        note='scanner contract: a recognised definition ends just after a line ending beyond the offset '
+             '(checked against the spec grammar in the bounded tier b07)'), classmethod_=True)
+    method('Footnote', 'append_footnotes', Contract(
+        MOD + ':Footnote.append_footnotes', [('matches', TList(REF5)), ('root', TRef('Token'))],
+        trusted=True, modifies=['G:FOOTNOTES'],
+        note='first-wins insertion into root.footnotes (dict semantics, A8)'), static=True)
+    m.namespaces[MOD]['token'] = ('module', 'mistletoe.token')
+    method('Footnote', 'read', Contract(
+        MOD + ':Footnote.read', [('cls', cls_t('Footnote')), ('lines', FW)], returns=TOpt(TList(REF5)),
+        requires=READER_REQ + ["lines.lines[lines._index + 1].strip() != ''", 'not is_none(token._root_node)',
+                               'len(lines.lines[lines._index + 1]) >= 2'],
+        ensures=READER_ENS,
+        modifies=['lines._index', 'G:FOOTNOTES'],
+        body_types={'next_line': TOpt(STR), 'line_buffer': TList(STR), 'matches': TList(REF5)},
+        ghost_after={"string = ''.join(line_buffer)": [
+            ('__assume__', "string.count('\\n') == len(line_buffer)")]},
+        loops={
+            0: Loop(invariant=['CURSOR_OK(lines)', 'len(line_buffer) == lines._index - old(lines._index)',
+                               'implies(len(line_buffer) >= 1, line_buffer[0] == lines.lines[old(lines._index) + 1])',
+                               'is_none(next_line) == (lines._index + 1 >= len(lines.lines))',
+                               'implies(not is_none(next_line), some(next_line) == lines.lines[lines._index + 1])'],
+                    decreases='len(lines.lines) - 1 - lines._index'),
+            1: Loop(invariant=['0 <= offset', 'offset <= len(string)',
+                               '(offset == 0) == (len(matches) == 0)',
+                               "implies(offset > 0, string[offset - 1] == '\\n')",
+                               'lines._index == at_loop(1, lines._index)'],
+                    decreases='len(string) - offset'),
+        },
+        prop=P + ['C07'],
+        note="assumed lemma (A4): the joined buffer contains exactly one '\\n' per buffered line (LINES_OK)"),
+        classmethod_=True)
